@@ -109,6 +109,18 @@ CLAIMS = {
              "IndexError/KeyError freedom of the string scanners is only covered by the sweep.",
         technique="class-flow safety obligations over the AST (pyvc mode S) + VCs for coordinate functions; native sweep as bounded stand-in",
         design="3/C09"),
+    "C03": dict(
+        text="Safety obligations (mode S) over FortranFile.parse, its scope helpers and the FortranAST builders: no "
+             "possibly-None scope is dereferenced; helpers that assume an open scope are called only under the "
+             "end_scope_regex guard, which implies an open scope by the representation invariant of FortranAST proved as "
+             "VCs on add_scope/end_scope; get_line never raises (VCs); the main loop's progress and "
+             "parse_docs/get_docstring monotonicity, literal macro substitution and regex escaping are structural "
+             "obligations. Prefix/deletion/seeded-mutation sweeps (parse + diagnostics under a 5 s alarm) are the bounded "
+             "stand-in.",
+        note="Statement readers (read_var_def ...) and preprocess_file's directive machine are not under contract here "
+             "(bounded sweep only; the conditional machine is C08's); regex running time is not bounded by any contract.",
+        technique="class-flow safety obligations (pyvc mode S) + VCs for the scope-stack invariant + structural termination obligations; native sweeps as bounded stand-in",
+        design="3/C03"),
 }
 
 NOT_APPLICABLE = {
